@@ -16,6 +16,7 @@ import (
 	"encoding/json"
 	"fmt"
 	"math/big"
+	"runtime/debug"
 
 	ethcommon "github.com/ethereum/go-ethereum/common"
 	"github.com/ethereum/go-ethereum/consensus/ethash"
@@ -784,6 +785,7 @@ func checkHandler(netID uint32) {
 func main() {
 	r = ev.Start("C28", "exploration")
 	verifhook.SkipSealFlag = true
+	debug.SetGCPercent(400)
 	hsenv.Setup(config.NETWORK_ID_MAIN_NET)
 	r.Require("sizes:epoch", "hash:pre-london", "hash:london", "difficulty:evaluated", "gaslimit:ok", "gaslimit:rejected", "basefee:evaluated",
 		"eip1559:ok", "eip1559:rejected", "handler:accept", "handler:reject")
